@@ -85,8 +85,9 @@ def rule_client_side(ctx):
                     else:
                         for it, leaf in zip(items, leaves):
                             names, end = _chain(it)
-                            if names[:3] != ["quote", "escape", "to_snowflake"] or end is not leaf:
-                                probs.append(f"bound value {leaf.tag} reaches the text as `{tagof(it)[:70]}`, not quote(escape(to_snowflake(value)))")
+                            if names != ["quote", "escape", "to_snowflake"] or end is not leaf:
+                                probs.append(f"bound value {leaf.tag} reaches the text as `{tagof(it)[:70]}`, not quote(escape(to_snowflake(value)))"
+                                             + (f" (an extra conversion `{names[3]}` is applied to the value first)" if len(names) > 3 else ""))
                     # C08.b: inlining happened on the left operand only, before substitution
                     inl_left = any(_is_substitution(x) for x in _prov_nodes(left))
                     if not inl_left:
@@ -166,36 +167,38 @@ def rule_server_side(ctx):
 def rule_executemany(ctx):
     prog = ctx.prog
     ctx.analysed("cursor.FakeSnowflakeCursor.executemany")
+    from ..values import OneShot
     sets = [Tup([Sym("A1")]), Tup([Sym("B1")]), Tup([Sym("C1")])]
-    hooks = []
-
-    def fac():
-        h = FullHooks(None, "INSERT")
-        hooks.append(h)
-        return h
-
-    def run(I):
-        duck, conn, cur = make_session()
-        from ..execmodel import R
-        conn.attrs[R().paramstyle] = Const("qmark")
-        return I.call(I.getattr(cur, "executemany"), [Sym("COMMAND", typ="str", truthy=True), Tup(sets)], {}, None)
-
     n = 0
-    for p, h in zip(explore(prog, fac, run, max_paths=64), hooks):
-        if h.parsed == 0:
-            continue  # undefined-variable refusal on the first statement
-        if p.outcome != "return":
-            continue
-        n += 1
-        primaries = [c for c in h.calls if isinstance(c[1], Tup)]
-        ok = [c[1] for c in primaries] == sets and h.parsed == len(sets)
-        ctx.ob("C08.e", "executemany: one execute per parameter set, in order", ok, "fakesnow/cursor.py",
-               f"{h.parsed} statements, params {[tagof(c[1]) for c in primaries]}")
-        if not ok:
-            ctx.violation("C08.e", "cursor", "FakeSnowflakeCursor.executemany", "executemany loop", "fakesnow/cursor.py",
-                          f"executemany over 3 parameter sets executes {h.parsed} statement(s) with parameters "
-                          f"{[tagof(c[1]) for c in primaries]}: every set must be executed once, in order")
-    ctx.floor("C08.e paths", n, 1)
+    for shape in ("tuple", "iterator"):
+        hooks = []
+
+        def fac():
+            h = FullHooks(None, "INSERT", undefined_var=False)
+            hooks.append(h)
+            return h
+
+        def run(I, shape=shape):
+            duck, conn, cur = make_session()
+            from ..execmodel import R
+            conn.attrs[R().paramstyle] = Const("qmark")
+            batch = Tup(sets) if shape == "tuple" else OneShot(sets)  # any iterable of rows: a generator / zip(...) can be read once
+            return I.call(I.getattr(cur, "executemany"), [Sym("COMMAND", typ="str", truthy=True), batch], {}, None)
+
+        for p, h in zip(explore(prog, fac, run, max_paths=64), hooks):
+            if p.outcome != "return":
+                continue
+            n += 1
+            primaries = [c for c in h.calls if isinstance(c[1], Tup)]
+            ok = [c[1] for c in primaries] == sets and h.parsed == len(sets)
+            ctx.ob("C08.e", f"executemany ({shape} of rows): one execute per parameter set, in order", ok, "fakesnow/cursor.py",
+                   f"{h.parsed} statements, params {[tagof(c[1]) for c in primaries]}")
+            if not ok:
+                ctx.violation("C08.e", "cursor", "FakeSnowflakeCursor.executemany", f"executemany loop ({shape} of rows)", "fakesnow/cursor.py",
+                              f"executemany over 3 parameter sets given as a{'n' if shape == 'iterator' else ''} {shape} executes {h.parsed} statement(s) with "
+                              f"parameters {[tagof(c[1]) for c in primaries]}: every set must be executed once, in order"
+                              + (" (a one-shot iterable was consumed before the loop that executes)" if shape == "iterator" else ""))
+    ctx.floor("C08.e paths", n, 2)
 
 
 def rule_executemany_client_side(ctx):
